@@ -17,14 +17,24 @@ Two legs, both on the REAL ``CoverageArchive`` / ``MIOPopulation`` / ``MIOArchiv
   The oracle on every transition is the property statement itself (see
   ``judge`` and the ``_check_*`` functions).
 
+  The single events are explored breadth-first to a fixpoint (CoverageArchive:
+  the whole reachable state space) or to the stated depth; the pair updates are
+  then applied in every discovered state, and a pair successor outside the
+  closure would be explored further (sound even if ``update([a, b])`` differed
+  from ``update([a]); update([b])``).
+
 * Real leg (E2, deviation-bounded choice-tree exploration).  Real DYNAMOSA /
   MOSA / MIO algorithm objects built by ``TestSuiteGenerationAlgorithmFactory``
   on corpus modules instrumented for BRANCH coverage, every RNG draw answered by
-  the explorer (all executions with <= d non-default answers).  ``archive.update``
-  / ``add_goals`` / ``shrink_solutions`` are wrapped to apply the same
-  transition oracle to every real archive operation, and after every search
-  iteration every archived test is RE-EXECUTED on a fresh executor and must
-  cover the goal it is archived for; the covered set must grow monotonically.
+  the explorer.  Besides the neutral execution (base 0) a fixed list of *base
+  answer sequences* (``base_offsets``: data, an LCG stream per base number, not
+  sampled at run time) gives varied searches; explored are all executions with
+  <= d explorer-chosen answers deviating from a base (d = 0 for the base sweep,
+  d = 1 completely around the stated bases).  ``archive.update`` / ``add_goals``
+  / ``shrink_solutions`` are wrapped to apply the same transition oracle to
+  every real archive operation, and after every search iteration every archived
+  test is RE-EXECUTED on a second executor and must cover the goal it is
+  archived for; the covered set must grow monotonically.
 
 Lenient readings of the statement (stated because the text leaves latitude):
 ``update([s1, s2])`` may replace an archived test through a chain of
@@ -204,10 +214,6 @@ def _covers(desc, gi):
 
 
 # =====================================================================  machines
-class Violation(Exception):
-    pass
-
-
 class Machine:
     name = "?"
 
@@ -317,6 +323,8 @@ class CoverageMachine(Machine):
         return evs
 
     def pair_events(self):
+        if not self.params.get("pairs", True):
+            return []
         return [["update", pr] for pr in _pairs(self.stubs())]
 
     def apply(self, st, ev):
@@ -606,6 +614,7 @@ def shard_bfs(col, mname, root, params, depth, part, nparts):
     explored further with all events (so the search stays sound if update([a, b]) ever
     differs from update([a]); update([b]))."""
     m = MACHINES[mname](col, root, params)
+    lab = params.get("label", mname)
     s0 = m.snap(m.build([]))
     seen = {m.canon(s0): 0}
     col.distinct("states", m.canon(s0))
@@ -637,7 +646,7 @@ def shard_bfs(col, mname, root, params, depth, part, nparts):
                 continue
             expand(hist, snap, m.events(hist, snap), last or part == 0, nxt)
         if last:
-            col.count(f"new_states_at_depth_cap_{mname}", len(nxt))
+            col.count(f"new_states_at_depth_cap_{lab}", len(nxt))
             break
         states += nxt
         frontier = nxt
@@ -652,15 +661,15 @@ def shard_bfs(col, mname, root, params, depth, part, nparts):
         if i % nparts == part:
             expand(hist, snap, pairs, True, extra)
     # a pair successor that the single events did not reach within the bound: explore on
-    col.count(f"pair_successors_outside_single_closure_{mname}", len(extra))
+    col.count(f"pair_successors_outside_single_closure_{lab}", len(extra))
     while extra:
         hist, snap = extra.pop()
         if len(hist) < pair_depth:
             expand(hist, snap, m.events(hist, snap) + pairs, True, extra)
     if part == 0:
-        col.note(f"bfs_depth_{mname}", max(seen.values()) if complete else depth)
+        col.note(f"bfs_depth_{lab}", max(seen.values()) if complete else depth)
         if complete:
-            col.count(f"fixpoint_{mname}")
+            col.count(f"fixpoint_{lab}")
     for op in m.effects:
         col.distinct("ops_with_effect", f"{mname}.{op}")
 
@@ -710,7 +719,7 @@ def _real_jobs(tier):
     for module in MODULES:
         for algo in ALGOS:
             jobs.append((module, algo, "large", 0, list(range(0, 32)), 0, 1))
-            for base in (0, 1, 2):
+            for base in ((0, 1, 2) if algo == "MIO" else (0, 1)):
                 nparts = 2 if algo == "MIO" else 4
                 for part in range(nparts):
                     jobs.append((module, algo, "small", 1, [base], part, nparts))
@@ -814,7 +823,6 @@ class Probe:
         self.reexecutions = 0
         self.archive_ops = 0
         self.replacements = 0
-        self.covered_history = []
         self.last_covered = None
         self.digest = []
 
@@ -1041,27 +1049,42 @@ def _trim(choices):
 
 # =====================================================================  entry points
 def _params(tier):
+    """The synthetic exploration plan: label -> machine, roots, alphabet, depth, shards."""
     q = tier == "quick"
     statuses_cov = ["ok", "exc0"] if q else ["ok", "exc0", "to"]
     statuses_mio = ["ok", "exc0", "excL"] if q else ["ok", "exc0", "excL", "to"]
-    return {
+    pair_alpha = {"pair_hs": [0.5, 1.0], "pair_sizes": [1, 2], "pair_statuses": ["ok", "exc0"]}
+    plan = {
         "CoverageArchive": {
-            "roots": [[], [0, 1]] if q else [[], [0], [0, 1]],
+            "machine": "CoverageArchive", "roots": [[], [0, 1]] if q else [[], [0], [0, 1]],
             "params": {"goals": 2, "sizes": [1, 2, 3], "statuses": statuses_cov},
             "depth": 8, "parts": 2 if q else 4},
         "MIOPopulation": {
-            "roots": [1, 2, 3],
+            "machine": "MIOPopulation", "roots": [1, 2, 3],
             "params": {"hs": [0.0, 0.5, 1.0] if q else [0.0, 0.25, 0.5, 1.0], "sizes": [1, 2, 3],
                        "statuses": statuses_mio, "caps": [1, 2, 3]},
             "depth": 4 if q else 5, "parts": 1 if q else 4},
         "MIOArchive": {
-            "roots": [1, 2] if q else [1, 2, 3],
+            "machine": "MIOArchive", "roots": [1, 2] if q else [1, 2, 3],
             "params": {"goals": 2, "hs": [0.0, 0.5, 1.0], "sizes": [1, 2, 3], "statuses": statuses_mio,
-                       "caps": [1, 2] if q else [1, 2, 3],
-                       "pair_hs": [0.5, 1.0], "pair_sizes": [1, 2], "pair_statuses": ["ok", "exc0"],
+                       "caps": [1, 2] if q else [1, 2, 3], **pair_alpha,
                        "pair_depth": 2 if q else 3},
-            "depth": 3 if q else 4, "parts": 5 if q else 12},
+            "depth": 3, "parts": 5 if q else 12},
     }
+    if not q:
+        plan["CoverageArchive/3goals"] = {
+            "machine": "CoverageArchive", "roots": [[]],
+            "params": {"goals": 3, "sizes": [1, 2], "statuses": ["ok", "exc0"], "pairs": False},
+            "depth": 10, "parts": 1}
+        plan["MIOArchive/depth4"] = {
+            "machine": "MIOArchive", "roots": [2],
+            "params": {"goals": 2, "hs": [0.0, 0.5, 1.0], "sizes": [1, 2],
+                       "statuses": ["ok", "exc0"], "caps": [1, 2], **pair_alpha,
+                       "pair_depth": 0},
+            "depth": 4, "parts": 6}
+    for label, spec in plan.items():
+        spec["params"]["label"] = label
+    return plan
 
 
 def run(ctx):
@@ -1069,10 +1092,10 @@ def run(ctx):
 
     P = _params(ctx.tier)
     jobs = []
-    for mname, spec in P.items():
+    for spec in P.values():
         for root in spec["roots"]:
             for part in range(spec["parts"]):
-                jobs.append((mname, root, spec["params"], spec["depth"], part, spec["parts"]))
+                jobs.append((spec["machine"], root, spec["params"], spec["depth"], part, spec["parts"]))
     rjobs = _real_jobs(ctx.tier)
     # one pool; the long MIOArchive / deviation-bound-1 shards first
     alljobs = ([("bfs",) + j for j in jobs if j[0] == "MIOArchive"]
@@ -1088,8 +1111,9 @@ def run(ctx):
                       "coverage": "BRANCH", "base_stream": base_offsets.__doc__,
                       "jobs": sorted({(j[2], j[3], tuple(j[4])) for j in rjobs})})
     ctx.note("rng_menus", rng.MENUS)
-    ctx.note("machines_at_fixpoint", sorted(k[len("fixpoint_"):] for k in c if k.startswith("fixpoint_")))
-    ctx.note("machines_depth_bounded", sorted(k for k in P if f"fixpoint_{k}" not in c))
+    fix = sorted(k for k, v in P.items() if c.get(f"fixpoint_{k}", 0) == len(v["roots"]))
+    ctx.note("machines_explored_to_fixpoint", fix)
+    ctx.note("machines_depth_bounded", {k: v["depth"] for k, v in P.items() if k not in fix})
     ctx.exhaustive = True
     ctx.rule = ("synthetic: BFS over canonical archive states (per goal: capacity, counter, archived "
                 "(h, script, size)) of the real CoverageArchive / MIOPopulation / MIOArchive, every event "
